@@ -43,7 +43,7 @@ func vConcWorld() (*Calcium, *vWorld, []int) {
 
 type vOp struct {
 	name string
-	run  func() error
+	run  func(tag string) error // tag: "a" / "b", makes the names of symbolic inputs unique per operation
 }
 
 func vOps(c *Calcium, w *vWorld, amounts []int) []vOp {
@@ -58,19 +58,19 @@ func vOps(c *Calcium, w *vWorld, amounts []int) []vOp {
 		return nil
 	}
 	return []vOp{
-		{"remove-w1", func() error { return drainRemove([]string{"w1"}) }},
-		{"remove-w2", func() error { return drainRemove([]string{"w2"}) }},
-		{"realloc-w1", func() error {
-			d := vInt("delta_w1", -(1 << 20), 1<<20)
+		{"remove-w1", func(string) error { return drainRemove([]string{"w1"}) }},
+		{"remove-w2", func(string) error { return drainRemove([]string{"w2"}) }},
+		{"realloc-w1", func(tag string) error {
+			d := vInt("delta_w1_of_"+tag, -(1 << 20), 1<<20)
 			vAssume(amounts[0]+d >= 0)
 			return c.ReallocResource(ctx, &types.ReallocOptions{ID: "w1", Resources: vRes(d)})
 		}},
-		{"realloc-w2", func() error {
-			d := vInt("delta_w2", -(1 << 20), 1<<20)
+		{"realloc-w2", func(tag string) error {
+			d := vInt("delta_w2_of_"+tag, -(1 << 20), 1<<20)
 			vAssume(amounts[1]+d >= 0)
 			return c.ReallocResource(ctx, &types.ReallocOptions{ID: "w2", Resources: vRes(d)})
 		}},
-		{"dissociate-w2", func() error {
+		{"dissociate-w2", func(tag string) error {
 			ch, err := c.DissociateWorkload(ctx, []string{"w2"})
 			if err != nil {
 				return err
@@ -79,13 +79,13 @@ func vOps(c *Calcium, w *vWorld, amounts []int) []vOp {
 			}
 			return nil
 		}},
-		{"remove-node-b", func() error { return c.RemoveNode(ctx, "b") }},
-		{"create-one", func() error {
+		{"remove-node-b", func(string) error { return c.RemoveNode(ctx, "b") }},
+		{"create-one", func(tag string) error {
 			ch, err := c.CreateWorkload(ctx, &types.DeployOptions{
 				Name: "app", Podname: "p1", Image: "img", Count: 1, DeployStrategy: strategy.Auto, IgnorePull: true,
 				Entrypoint: &types.Entrypoint{Name: "entry"},
 				NodeFilter: &types.NodeFilter{Podname: "p1", Includes: []string{"b"}},
-				Resources:  vRes(vInt("amount_new", 0, 1<<20)),
+				Resources:  vRes(vInt("amount_new_of_"+tag, 0, 1<<20)),
 			})
 			if err != nil {
 				return err
@@ -94,13 +94,13 @@ func vOps(c *Calcium, w *vWorld, amounts []int) []vOp {
 			}
 			return nil
 		}},
-		{"set-node-b", func() error {
-			_, err := c.SetNode(ctx, &types.SetNodeOptions{Nodename: "b", Delta: true, Resources: vRes(vInt("capacity_change", 0, 1<<20)), Bypass: types.TriKeep})
+		{"set-node-b", func(tag string) error {
+			_, err := c.SetNode(ctx, &types.SetNodeOptions{Nodename: "b", Delta: true, Resources: vRes(vInt("capacity_change_of_"+tag, 0, 1<<20)), Bypass: types.TriKeep})
 			return err
 		}},
-		{"remove-w1-w2", func() error { return drainRemove([]string{"w1", "w2"}) }},
-		{"remove-w2-w1", func() error { return drainRemove([]string{"w2", "w1"}) }},
-		{"dissociate-w2-w1", func() error {
+		{"remove-w1-w2", func(string) error { return drainRemove([]string{"w1", "w2"}) }},
+		{"remove-w2-w1", func(string) error { return drainRemove([]string{"w2", "w1"}) }},
+		{"dissociate-w2-w1", func(tag string) error {
 			ch, err := c.DissociateWorkload(ctx, []string{"w2", "w1"})
 			if err != nil {
 				return err
@@ -127,7 +127,7 @@ func VerifConcurrentOps(arg string) {
 	doneA := false
 	var errA error
 	go func() {
-		errA = opA.run()
+		errA = opA.run("a")
 		vMu.Lock()
 		doneA = true
 		vMu.Unlock()
@@ -146,7 +146,7 @@ func VerifConcurrentOps(arg string) {
 			time.Sleep(100 * time.Microsecond)
 		}
 	}
-	errB := opB.run()
+	errB := opB.run("b")
 	vBlockUntil(func() bool {
 		vMu.Lock()
 		defer vMu.Unlock()
